@@ -11,7 +11,7 @@
      AUTO with limit <> 0: count n + p n <= limit for every node that received >= 1. *)
 From Coq Require Import String ZArith List Permutation Sorted.
 From Verif Require Import Base.GoInt Base.GoSort Base.GoSortSpec Strategy.Model Strategy.ProofsBase
-  Strategy.ProofsSort Strategy.Proofs Strategy.ProofsOk Strategy.ProofsOld Strategy.Statements.
+  Strategy.ProofsSort Strategy.Proofs Strategy.ProofsOk Strategy.ProofsOld Strategy.Statements Strategy.Glue Strategy.ProofsGlue.
 Local Open Scope Z_scope.
 
 (* full statement, all five strategies, all tables / counts / limits / totals *)
@@ -72,3 +72,12 @@ Theorem C01_hypotheses_satisfiable :
   feasible Each 2 0 ex_infos = true /\ feasible Auto 5 3 ex_infos = false.
 Proof. exact (conj ex_valid ex_all_strategies_plan). Qed.
 Print Assumptions C01_hypotheses_satisfiable.
+
+(* through the glue doGetDeployStrategy (cluster/calcium/resource.go), for every
+   iteration order of the capacity map *)
+Theorem C01_glue : forall caps order status need limit total,
+  valid_caps caps status -> Permutation caps order -> 0 < need -> 0 <= limit ->
+  forall s p, glue s need limit order status total = Ok p ->
+  C01_spec s need limit (glue_infos order status) p.
+Proof. exact glue_C01. Qed.
+Print Assumptions C01_glue.
